@@ -227,6 +227,9 @@ func scheduleVariants(base *core.Scenario, seed uint64, n int) []*core.Scenario 
 func runSchedules(c *Check, seed uint64, i int, tier string, st *core.Stats) {
 	rs := RunSeed(seed, c.ID, i)
 	base := gen.ScenarioFor(c.ID, rs, profileFor(c.ID))
+	if base.Template != "" {
+		st.Probes["template."+base.Template]++
+	}
 	if c.ID == "C11" {
 		// a third of the fetches happen on an instance that has executed before (other facts)
 		r := core.NewRand(core.Mix(rs, 0x11))
@@ -260,6 +263,9 @@ func runSchedules(c *Check, seed uint64, i int, tier string, st *core.Stats) {
 func runFaults(c *Check, seed uint64, i int, tier string, st *core.Stats) {
 	rs := RunSeed(seed, c.ID, i)
 	base := gen.ScenarioFor(c.ID, rs, profileFor(c.ID))
+	if base.Template != "" {
+		st.Probes["template."+base.Template]++
+	}
 	clean := execE(c.ID, base, i, st)
 	if clean.HarnessErr != "" {
 		return
@@ -336,6 +342,9 @@ func runFaults(c *Check, seed uint64, i int, tier string, st *core.Stats) {
 func runCancels(c *Check, seed uint64, i int, tier string, st *core.Stats) {
 	rs := RunSeed(seed, c.ID, i)
 	base := gen.ScenarioFor(c.ID, rs, profileFor(c.ID))
+	if base.Template != "" {
+		st.Probes["template."+base.Template]++
+	}
 	base.Faults = nil
 	clean := execE(c.ID, base, i, st)
 	if clean.HarnessErr != "" {
